@@ -258,8 +258,47 @@ def run(ctx):
             if bad:
                 ctx.violation(f'{w.name} element {a}: ' + '; '.join(bad),
                               {'kind': 'pickle', 'spec': ['poly', w.p, w.mod], 'a': a, 'failed': bad})
+    for spec in (['int', 101], ['poly', 2, [1, 1, 0, 1, 1, 0, 0, 0, 1]], ['tuple', 7, 2, 6]):
+        ctx.case(('pickle-after-many-fields', tuple(map(str, spec))))
+        ctx.count('pickle:after-many-other-fields')
+        bad = pickle_after_many_fields(spec, ctx.scale(160, 600))
+        if bad:
+            ctx.violation(f'GF{tuple(spec[1:])}: ' + '; '.join(bad), {'kind': 'pickle-history', 'spec': spec, 'failed': bad})
     out = common.LeanDriver('FinFld').run(lines)
     ctx.compare('to_bytes / from_bytes / byte_length / views / __reduce__', reals, out, meta)
+
+
+def pickle_after_many_fields(spec, n_other):
+    """history dependence: an element created EARLIER must still round-trip to the same class after many other fields of the
+    same kind were created in the process (the class is not pickled: it is looked up again from (p, n, w) / the modulus)"""
+    F = make_field(spec)
+    e = F(3)
+    blob = pickle.dumps(e)
+    primes, x = [], 103
+    while len(primes) < n_other:
+        if all(x % q for q in range(2, int(x ** 0.5) + 1)):
+            primes.append(x)
+        x += 2
+    if spec[0] == 'poly':
+        poly = gfpx.GFpX(2)
+        m_ = poly(2)
+        for _ in range(n_other):
+            m_ = poly.next_irreducible(m_)
+            finfields.GF(m_)
+    else:
+        for q in primes:
+            finfields.GF(q)
+    bad = []
+    for what, b in (('unpickled after the other fields', pickle.loads(blob)),
+                    ('pickled and unpickled after the other fields', pickle.loads(pickle.dumps(e)))):
+        if type(b) is not type(e):
+            bad.append(f'{what}: class {type(b).__name__} is a different class object than the element\'s own field')
+        try:
+            if not (b == e) or (b + e).value != (e + e).value:
+                bad.append(f'{what}: not equal to / not compatible with the original element')
+        except TypeError as exc:
+            bad.append(f'{what}: {type(exc).__name__}: {str(exc)[:80]}')
+    return bad
 
 
 def search(ctx):
@@ -285,6 +324,9 @@ def search(ctx):
 
 def replay(ctx, data):
     kind = data.get('kind')
+    if kind == 'pickle-history':
+        bad = pickle_after_many_fields(data['spec'], 600)
+        return (not bad, f'GF{tuple(data["spec"][1:])} after 600 other fields: failed={bad}')
     if kind == 'pickle':
         bad = pickle_failures(data['spec'], int(data['a']))
         return (not bad, f'pickle GF{tuple(data["spec"][1:])} element {data["a"]}: failed={bad}')
